@@ -61,7 +61,7 @@ type DataflowParams struct {
 	Map    string // "" top inner   (consumer mapped: at the outermost or innermost level)
 	Wrap   int    // 0 1 2 nested sub-pipelines around the consumer
 	Dis    string // "" in-true in-false gen-true gen-false
-	DisAt  string // cons wrap
+	DisAt  string // cons wrap src
 	Narrow bool   // consumer takes B where the source is A
 	Cons   string // id sums add
 	Alias  bool
@@ -217,8 +217,11 @@ func Dataflow(d DataflowParams) *Program {
 	default:
 		return nil
 	}
-	if d.Dis != "" && d.DisAt != "cons" && d.DisAt != "wrap" {
+	if d.Dis != "" && d.DisAt != "cons" && d.DisAt != "wrap" && d.DisAt != "src" {
 		return nil
+	}
+	if d.DisAt == "src" && d.Src != "gen" {
+		return nil // "src": the producing call GEN carries the disabled modifier
 	}
 	if d.Dis == "" && d.DisAt != "" {
 		return nil
@@ -227,7 +230,11 @@ func Dataflow(d DataflowParams) *Program {
 		return nil
 	}
 	if needGen {
-		top.Calls = append(top.Calls, &Call{Callee: "GEN", Binds: []Bind{{"n", Self("n")}}})
+		gen := &Call{Callee: "GEN", Binds: []Bind{{"n", Self("n")}}}
+		if d.DisAt == "src" {
+			gen.Disabled = disE
+		}
+		top.Calls = append(top.Calls, gen)
 	}
 	if d.Pre {
 		p.Stages = append(p.Stages, &Stage{Name: "PRE", Fn: "PRE", Ins: []Param{{T: IntT, Name: "n"}}})
@@ -397,6 +404,19 @@ func Dataflow(d DataflowParams) *Program {
 	case "passthru":
 		top.Outs = append(top.Outs, Param{T: IntT, Name: "n"})
 		top.Ret = append(top.Ret, Bind{"n", Self("n")})
+	case "sink":
+		// a stage WITHOUT outputs consuming the source at top level, mapped
+		// the way the consumer is when that is mapped at the top
+		st := valT
+		arg := srcE
+		if d.Map == "top" {
+			st, arg = elemT, SplitE(srcE)
+		}
+		name := "SINK_" + st.Mangle()
+		if p.Stage(name) == nil {
+			p.Stages = append(p.Stages, &Stage{Name: name, Fn: "PRE", Ins: []Param{{T: st, Name: "c"}}})
+		}
+		top.Calls = append(top.Calls, &Call{Callee: name, Map: d.Map == "top", Binds: []Bind{{"c", arg}}})
 	default:
 		return nil
 	}
@@ -416,9 +436,9 @@ func DataflowFamily(maxDev int) []DataflowParams {
 	maps := []string{"", "top", "inner"}
 	wraps := []int{0, 1, 2, 3}
 	diss := []string{"", "gen-false", "gen-true", "in-true", "in-false"}
-	disAts := []string{"", "cons", "wrap"}
+	disAts := []string{"", "cons", "wrap", "src"}
 	conss := []string{"id", "sums", "add"}
-	extras := []string{"", "chain", "passthru"}
+	extras := []string{"", "chain", "passthru", "sink"}
 	bools := []bool{false, true}
 	var out []DataflowParams
 	seen := map[string]bool{}
